@@ -1,2 +1,3 @@
 import Properties.C11
 import Properties.C04
+import Properties.C01
